@@ -16,7 +16,9 @@ INITIAL_MISSED = {"C01-m1", "C03-m2", "C04-m1", "C05-m1", "C08-m1", "C09-m1", "C
                   "C10-r4m1", "C14-r4m1", "C16-r4m2", "C18-r4m2", "C20-r4m1", "C20-r4m2",
                   # fifth round
                   "C02-r5m2", "C03-r5m1", "C03-r5m2", "C04-r5m2", "C10-r5m1", "C10-r5m2", "C11-r5m2", "C13-r5m1", "C13-r5m2",
-                  "C14-r5m2", "C15-r5m2", "C16-r5m2", "C18-r5m2", "C19-r5m1"}
+                  "C14-r5m2", "C15-r5m2", "C16-r5m2", "C18-r5m2", "C19-r5m1",
+                  # sixth round (four small single-site changes per property)
+                  "C02-r6m1", "C02-r6m4", "C03-r6m1", "C03-r6m4", "C04-r6m2", "C07-r6m1", "C18-r6m3"}
 # --seed N: run at another VERIF_SEED and only print the verdicts (meta.json untouched) - finds catches that depend on luck
 args = sys.argv[1:]
 seed = None
